@@ -239,6 +239,7 @@ class SK(object):
         self.steps = 0
         self.decisions = None       # None: undecidable float comparisons are unsupported; list: replayed / extended fork decisions
         self.trace = []
+        self.text = False           # text mode: strings are concrete (str(), +, join are faithful; an abstract float prints as <label>)
         self.copies = {}            # id(source list) -> (source, [deep copies made of it]); working-copy discipline (SS1)
         self.stale = []             # (node, index): element of a copied source read after the working copy's element changed
 
@@ -325,6 +326,8 @@ class SK(object):
             return Py(lambda sk, node, *a, _b=b, _n=e.attr: getattr(_b, _n)(*a), 'list.' + e.attr)
         if isinstance(b, set) and e.attr in ('add', 'update', 'discard', 'remove', 'clear'):
             return Py(lambda sk, node, *a, _b=b, _n=e.attr: getattr(_b, _n)(*a), 'set.' + e.attr)
+        if isinstance(b, str) and self.text and e.attr in ('join', 'format', 'strip', 'split', 'rstrip', 'lstrip'):
+            return Py(lambda sk, node, *a, _b=b, _n=e.attr, **k: getattr(_b, _n)(*[list(x) if hasattr(x, '__next__') else x for x in a], **k), 'str.' + e.attr)
         if isinstance(b, str) and e.attr in ('format', 'join'):
             return Py(lambda sk, node, *a, **k: '', 'str')
         if b is None:
@@ -388,6 +391,10 @@ class SK(object):
     def e_BinOp(self, e, env):
         a, b = self.ev(e.left, env), self.ev(e.right, env)
         if isinstance(e.op, ast.Add) and isinstance(a, (list, str, tuple)) and isinstance(b, type(a)):
+            return a + b
+        if self.text and isinstance(e.op, ast.Add) and (isinstance(a, str) or isinstance(b, str)):
+            if not (isinstance(a, str) and isinstance(b, str)):
+                raise Violation('SK2', 'str + %s' % type(b if isinstance(a, str) else a).__name__, e)
             return a + b
         if isinstance(e.op, ast.Add) and isinstance(a, str) or isinstance(b, str):
             return ''
@@ -770,6 +777,17 @@ def _isinst(sk, n, x, t):
     return False
 
 
+def _str(sk, n, *a):
+    if not sk.text or not a:
+        return ''
+    x = a[0]
+    if isinstance(x, Tok):
+        return '<%s>' % ','.join(str(l) for l in sorted(x.dep, key=repr)) if x.dep else '<?>'
+    if isinstance(x, (int, float, str)):
+        return str(x)
+    raise Unsupported('str() of %s' % type(x).__name__)
+
+
 def _float(sk, n, x):
     if isinstance(x, (Ord, Gap)):
         return x
@@ -817,7 +835,7 @@ BUILTINS = {
     'isinstance': Py(_isinst, 'isinstance'), 'list': Py(lambda sk, n, *a: list(*a), 'list'), 'tuple': Py(lambda sk, n, *a: tuple(*a), 'tuple'),
     'dict': Py(lambda sk, n, *a, **k: dict(*a, **k), 'dict'), 'deepcopy': Py(_deepcopy_tracked, 'deepcopy'),
     'sum': Py(_sum, 'sum'), 'reversed': Py(lambda sk, n, x: list(reversed(x)), 'reversed'), 'sorted': Py(lambda sk, n, x: sorted(x), 'sorted'),
-    'set': Py(lambda sk, n, *a: set(*a), 'set'), 'str': Py(lambda sk, n, *a: '', 'str'), 'print': Py(lambda sk, n, *a, **k: None, 'print'),
+    'set': Py(lambda sk, n, *a: set(*a), 'set'), 'str': Py(lambda sk, n, *a: _str(sk, n, *a), 'str'), 'print': Py(lambda sk, n, *a, **k: None, 'print'),
     'all': Py(lambda sk, n, x: all(x), 'all'), 'any': Py(lambda sk, n, x: any(x), 'any'), 'bool': Py(lambda sk, n, x: bool(x), 'bool'),
     'super': ('super',), 'True': True, 'False': False, 'None': None,
     'ValueError': Py(lambda sk, n, *a, **k: ('exc', 'ValueError'), 'exc'), 'GeomdlException': Py(lambda sk, n, *a, **k: ('exc', 'GeomdlException'), 'exc'),
